@@ -2,12 +2,23 @@ import os
 
 import vlib
 
+def regen(rep):
+    """(T) regenerate coq/gen/ParSites.v from $VERIF_REPO/modeling/*.go with tools/par2coq: Par/SitesProofs.v proves
+    the partition theorem against the generated terms, so an edit of the partition arithmetic or of one call site
+    changes what has to be proved."""
+    rc, log = vlib.sh([os.path.join(vlib.VERIF, "bin", "regen-c10.sh")], timeout=300)
+    if rc != 0:
+        return False, "bin/regen-c10.sh (tools/par2coq) could not translate the parallel entry points of modeling/mesh.go:\n" + log
+    return True, log
+
+
 CFG = {
-    "id": "C10", "harness": "c10",
+    "id": "C10", "harness": "c10", "pre": regen,
     "check_vo": "theories/Check/C10.vo", "prop_vo": "theories/Properties/C10.vo",
     "prop_file": "theories/Properties/C10.v",
     "theory_files": ["theories/Par/Partition.v", "theories/Par/Interleave.v", "theories/Par/ParProofs.v",
-                     "theories/Par/ParExtra.v", "theories/Par/ParSequence.v", "theories/Par/FloatDiv.v"],
+                     "theories/Par/ParExtra.v", "theories/Par/ParSequence.v", "theories/Par/FloatDiv.v",
+                     "theories/Par/Sites.v", "theories/Par/SitesProofs.v", "theories/Par/ParRound4.v", "gen/ParSites.v"],
     "level_text": "Coq theorems about a model of the work partition of every *ParallelWithPoolSize entry point of "
                   "modeling.Mesh (ranges ws*i .. ws*i+ws, last worker takes the remainder), of workers as lists of atomic "
                   "steps and of executions as arbitrary interleavings of those lists: for every element count, every pool "
